@@ -325,6 +325,9 @@ fn build(c: &SetCase) -> Result<World, Failure> {
     let mut coms: Vec<VCom> = vec![];
     let mut chopped: Vec<bool> = vec![];
     let mut chop_point: Option<usize> = None;
+    // pieces of the chopped commitments, for twins (same pieces, distinct commitment object)
+    let mut pieces_of: Vec<Option<Vec<Vec<Fq>>>> = vec![];
+    let mut twin_of: Option<Vec<Vec<Fq>>> = None;
     for (i, spec) in c.polys.iter().enumerate() {
         let mut mask = spec.mask & full;
         if mask == 0 {
@@ -342,7 +345,9 @@ fn build(c: &SetCase) -> Result<World, Failure> {
                 } else {
                     let t = j as usize % i;
                     if chopped[t] {
-                        PolyKind::Random
+                        // a twin of a chopped commitment: equal pieces, its own reference
+                        twin_of = pieces_of[t].clone();
+                        PolyKind::Chopped(0)
                     } else {
                         PolyKind::SameAs(t as u8)
                     }
@@ -357,15 +362,19 @@ fn build(c: &SetCase) -> Result<World, Failure> {
                 let cp = if c.chop_pos == ChopPos::Free { own } else { shared };
                 mask = 1 << cp;
                 let pcs = 2 + (p as usize % 3);
-                let pieces: Vec<Vec<Fq>> = (0..pcs)
-                    .map(|_| {
-                        if rng.next_u32() % 8 == 0 {
-                            vec![Fq::ZERO; n]
-                        } else {
-                            rand_vec(&mut rng, n)
-                        }
-                    })
-                    .collect();
+                let pieces: Vec<Vec<Fq>> = match twin_of.take() {
+                    Some(p) => p,
+                    None => (0..pcs)
+                        .map(|_| {
+                            if rng.next_u32() % 8 == 0 {
+                                vec![Fq::ZERO; n]
+                            } else {
+                                rand_vec(&mut rng, n)
+                            }
+                        })
+                        .collect(),
+                };
+                pieces_of.push(Some(pieces.clone()));
                 let x = points[cp];
                 let sf = x.pow_vartime([n as u64 - 1]);
                 let mut comb = vec![Fq::ZERO; n];
@@ -401,6 +410,7 @@ fn build(c: &SetCase) -> Result<World, Failure> {
                 coms.push(VCom::new(&srs, vec![v.clone()], None));
                 values.push(v);
                 chopped.push(false);
+                pieces_of.push(None);
             }
         }
         masks.push(mask);
@@ -619,6 +629,12 @@ fn honest_check(c: &SetCase) -> CaseResult {
     }
     if w.stmt.coms.iter().any(|c| c.chop_n.is_some() && c.g.len() == 4) {
         v = v.with("chopped:4-pieces");
+    }
+    {
+        let ch: Vec<_> = w.stmt.coms.iter().filter(|c| c.chop_n.is_some()).collect();
+        if ch.iter().enumerate().any(|(i, a)| ch[..i].iter().any(|b| a.g == b.g)) {
+            v = v.with("chopped:twins");
+        }
     }
     if c.bind {
         v = v.with("statement-absorbed");
@@ -1328,8 +1344,14 @@ fn fault_bases(seed: u64) -> Vec<SetCase> {
         false,
     );
     free.chop_pos = ChopPos::Free;
+    // chopped twins: equal pieces behind two commitment references, at one point and at two
+    let twins_same = mk(3, 2, vec![spec(Chopped(1), 0b01), spec(SameAs(0), 0b01), spec(Random, 0b11)], Order::PolyMajor, false);
+    let mut twins_free = mk(3, 2, vec![spec(Random, 0b10), spec(Chopped(0), 0b01), spec(SameAs(1), 0b10), spec(Random, 0b11)], Order::PolyMajor, false);
+    twins_free.chop_pos = ChopPos::Free;
     vec![
         free,
+        twins_same,
+        twins_free,
         mk(2, 1, vec![spec(Random, 1)], Order::PolyMajor, false),
         mk(3, 3, vec![spec(Random, 0b111)], Order::PolyMajor, false),
         mk(3, 2, vec![spec(Random, 0b01), spec(Random, 0b10)], Order::PolyMajor, false),
